@@ -132,16 +132,44 @@ func (f *fnState) globalLoad(en *env, lv *LV) SV {
 		f.unsupported("aggregate global " + key)
 		return f.freshOf("g", t)
 	}
+	// package-level error variables are non-nil and never reassigned: one constant per variable
+	if s == sIface && types.Identical(t, types.Universe.Lookup("error").Type()) {
+		name := "gv$" + strings.TrimPrefix(key, "V:")
+		first := !f.declared[name]
+		f.declare(name, sIface)
+		c := sym(name)
+		if first {
+			// these facts are closed terms: state them even when first met inside a quantifier body
+			q := f.quant
+			f.quant = 0
+			defer func() { f.quant = q }()
+			f.fact(fmt.Sprintf("(not (= %s %s))", c, nilIface))
+			f.note("assumption: package-level error variables are non-nil and never reassigned")
+			if f.entry != nil {
+				// initialised before the function runs: not one of the objects it allocates
+				f.fact(fmt.Sprintf("(< (l-ref (i-ptr %s)) %s)", c, f.get(f.entry, "G$nextref", sInt).T))
+			}
+			if leafSentinels[strings.TrimPrefix(key, "V:")] {
+				f.note("assumption: io.EOF, io.ErrUnexpectedEOF and the other errors.New sentinels of package io are distinct and wrap nothing")
+				f.fact(fmt.Sprintf("(forall ((t Iface)) (! (= (errIs %s t) (= %s t)) :pattern ((errIs %s t))))", c, c, c))
+				for _, o := range f.sentinels {
+					f.fact(fmt.Sprintf("(not (= %s %s))", c, o))
+				}
+				f.sentinels = append(f.sentinels, c)
+			}
+		}
+		sv := f.mk(t, c)
+		f.typeFacts(sv)
+		return sv
+	}
 	v := f.get(en, key, s)
 	sv := f.mk(t, v.T)
 	f.typeFacts(sv)
-	// package-level error variables are non-nil and never reassigned
-	if s == sIface && types.Identical(t, types.Universe.Lookup("error").Type()) {
-		f.fact(fmt.Sprintf("(not (= %s %s))", v.T, nilIface))
-		f.note("assumption: package-level error variables are non-nil")
-	}
 	return sv
 }
+
+// error variables of the standard library created by errors.New
+var leafSentinels = map[string]bool{"io.EOF": true, "io.ErrUnexpectedEOF": true, "io.ErrShortWrite": true, "io.ErrShortBuffer": true, "io.ErrNoProgress": true, "io.ErrClosedPipe": true}
 
 func (f *fnState) navLoad(cv SV, path []PathElem) SV {
 	for _, pe := range path {
@@ -561,6 +589,12 @@ func (f *fnState) instr(ins ssa.Instruction) {
 			sv := f.mk(i.Type(), fmt.Sprintf("(select %s %s)", x.T, idx.T))
 			f.typeFacts(sv)
 			f.vals[i] = sv
+		case *types.Basic:
+			// string index
+			f.oblige("SAFE:index", "", f.site(), fmt.Sprintf("(and (<= 0 %s) (< %s (slen %s)))", idx.T, idx.T, x.T))
+			sv := f.mk(i.Type(), fmt.Sprintf("(sbyte %s %s)", x.T, idx.T))
+			f.typeFacts(sv)
+			f.vals[i] = sv
 		default:
 			f.unsupported("index of " + typeName(i.X.Type()))
 			f.vals[i] = f.freshOf("idx", i.Type())
@@ -893,6 +927,10 @@ func (f *fnState) indexAddr(i *ssa.IndexAddr) {
 		f.oblige("SAFE:index", "", f.site(), fmt.Sprintf("(and (<= 0 %s) (< %s (s-len %s)))", idx.T, idx.T, x.T))
 		loc := f.define("eloc", sLoc, locOff(fmt.Sprintf("(s-loc %s)", x.T), idx.T))
 		f.declared["nonnil:"+loc] = true
+		if !isByte(u.Elem()) {
+			// name the element the way quantified contract clauses do, so that they apply to it
+			f.fact(fmt.Sprintf("(= (elt %s %s) %s)", x.T, idx.T, loc))
+		}
 		f.vals[i] = SV{Typ: i.Type(), Sort: sLoc, LV: &LV{Loc: loc, RootT: u.Elem(), Interior: true, Avail: fmt.Sprintf("(- (s-len %s) %s)", x.T, idx.T)}}
 	case *types.Pointer:
 		at := u.Elem().Underlying().(*types.Array)
@@ -1046,7 +1084,67 @@ func (f *fnState) makeInterface(i *ssa.MakeInterface) {
 			ptr = fmt.Sprintf("(mk-loc %s 0)", f.newRef())
 		}
 	}
-	f.vals[i] = f.mk(i.Type(), f.define("if", sIface, fmt.Sprintf("(mk-if %d %s)", tag, ptr)))
+	box := f.define("if", sIface, fmt.Sprintf("(mk-if %d %s)", tag, ptr))
+	f.vals[i] = f.mk(i.Type(), box)
+	f.errIsFacts(box, i.X.Type(), x)
+}
+
+// errIsFacts records what errors.Is sees in a freshly boxed value: a dynamic type with neither
+// an Is nor an Unwrap method matches only itself; a struct whose Unwrap method returns one of its
+// fields matches what that field matches.
+func (f *fnState) errIsFacts(box string, t types.Type, x SV) {
+	if box == "" {
+		return
+	}
+	ms := f.e.Prog.MethodSets.MethodSet(t)
+	var unwrap *types.Selection
+	for k := 0; k < ms.Len(); k++ {
+		switch ms.At(k).Obj().Name() {
+		case "Is", "As":
+			return
+		case "Unwrap":
+			unwrap = ms.At(k)
+		}
+	}
+	if unwrap == nil {
+		f.assume(fmt.Sprintf("(forall ((t Iface)) (! (= (errIs %s t) (= %s t)) :pattern ((errIs %s t))))", box, box, box))
+		return
+	}
+	st, ok := t.Underlying().(*types.Struct)
+	if !ok || len(x.Agg) != st.NumFields() {
+		return
+	}
+	fn := f.e.Prog.MethodValue(unwrap)
+	if fn == nil || len(fn.Blocks) != 1 {
+		return
+	}
+	fld := -1
+	for _, ins := range fn.Blocks[0].Instrs {
+		switch v := ins.(type) {
+		case *ssa.FieldAddr:
+			if fld >= 0 {
+				return
+			}
+			fld = v.Field
+		case *ssa.Field:
+			if fld >= 0 {
+				return
+			}
+			fld = v.Field
+		case *ssa.Call:
+			if b, ok := v.Call.Value.(*ssa.Builtin); ok && strings.HasPrefix(b.Name(), "ssa:") {
+				continue
+			}
+			return
+		case *ssa.MapUpdate, *ssa.Index, *ssa.IndexAddr, *ssa.Lookup:
+			return
+		}
+	}
+	if fld < 0 || x.Agg[fld].Sort != sIface {
+		return
+	}
+	f.note("assumption: errors.Is follows Unwrap methods that return a field of the receiver")
+	f.assume(fmt.Sprintf("(forall ((t Iface)) (! (= (errIs %s t) (or (= %s t) (errIs %s t))) :pattern ((errIs %s t))))", box, box, x.Agg[fld].T, box))
 }
 
 func (f *fnState) typeAssert(i *ssa.TypeAssert) {
